@@ -24,10 +24,13 @@ func RunAll(w *load.World, c *core.Collector) {
 	Purity(w, c)
 	Route(w, c)
 	Fanout(w, c)
+	Sorted(w, c)
 	Transfer(w, c)
 	Quota(w, c)
 	Lifecycle(w, c)
 	Valid(w, c)
+	VecLen(w, c)
+	HandBuilt(w, c)
 	Tenant(w, c)
 	OpTable(w, c)
 	TypeTab(w, c)
